@@ -24,6 +24,23 @@ pub fn stub_read_xml(reader: &mut NsReader<&[u8]>, start: &BytesStart<'_>) -> Re
     })
 }
 
+/// Stubs for the two one-line wrappers `Errors::new` / `Errors::push` (`Vec::new` /
+/// `Vec::push`): a vector with room for 4 errors allocated up front and a push that never
+/// reallocates (it *asserts* that the capacity suffices).  `Vec::push` on a vector of symbolic
+/// length makes CBMC explore the reallocation path (symbolic-size memcpy) at every call.
+pub fn stub_errors_new() -> Errors {
+    Errors { inner: Vec::with_capacity(4) }
+}
+
+pub fn stub_errors_push(this: &mut Errors, err: Error) {
+    let len = this.inner.len();
+    assert!(len < 4, "model bound exceeded: more than 4 rpc-errors in one reply");
+    unsafe {
+        std::ptr::write(this.inner.as_mut_ptr().add(len), err);
+        this.inner.set_len(len + 1);
+    }
+}
+
 pub fn severity_code(e: &Error) -> u8 {
     match e.severity {
         Severity::Error => SEV_ERROR,
